@@ -80,14 +80,29 @@ def linear_step(ctx, rng, idx):
     except np.linalg.LinAlgError:
         raise core.Skip("singular")
     R0 = A @ Q0 + b
+    vol_ = s.mesh.vol()
+    stretched = float(np.max(vol_) / np.min(vol_)) > 1e3
+
+    def _key(base, got, th_, rhs_):
+        """known finding D20: on a strongly stretched mesh the step IS the theta scheme of the code's own finite-difference Jacobian
+        (checked here to 1e-9), whose O(sqrt(eps)/dx_min) noise is the whole deviation.  Anything else keeps the ordinary key."""
+        if not stretched:
+            return base
+        try:
+            expJ = np.linalg.solve(D * (1.5 if th_ is None else 1.0) - (1.0 if th_ is None else th_) * np.array(solver.jacobian, float), rhs_)
+        except np.linalg.LinAlgError:
+            return base
+        if np.max(np.abs(got - expJ)) <= 1e-9 * (np.max(np.abs(expJ)) + np.max(np.abs(got)) + 1e-300):
+            return "stretched-mesh-fd-jacobian-noise/" + base
+        return base
     if iname != "gear":
         th = THETA[iname]
         exp = Q0 + np.linalg.solve(D - th * A, R0)
-        ctx.close("linear-solve", np.max(np.abs(f.data[0] - exp)) / qscale, tol, "step/%s/not-theta-scheme" % iname,
-                  {"cfl": cfl, "max diff": np.max(np.abs(f.data[0] - exp))}, cls=cls)
+        ctx.close("linear-solve", np.max(np.abs(f.data[0] - exp)) / qscale, tol, _key("step/%s/not-theta-scheme" % iname, f.data[0] - Q0, th, R0) if np.max(np.abs(f.data[0] - exp)) / qscale > tol else "step/%s/not-theta-scheme" % iname,
+                  {"cfl": cfl, "max diff": np.max(np.abs(f.data[0] - exp)), "cell size ratio": float(np.max(vol_) / np.min(vol_))}, cls=cls)
     else:
         exp1 = Q0 + np.linalg.solve(D - 0.5 * A, R0)       # Crank-Nicolson start of size dt
-        ctx.close("gear-start", np.max(np.abs(f.data[0] - exp1)) / qscale, tol, "step/gear/first-step-not-cranknicolson",
+        ctx.close("gear-start", np.max(np.abs(f.data[0] - exp1)) / qscale, tol, _key("step/gear/first-step-not-cranknicolson", f.data[0] - Q0, 0.5, R0) if np.max(np.abs(f.data[0] - exp1)) / qscale > tol else "step/gear/first-step-not-cranknicolson",
                   {"cfl": cfl, "max diff": np.max(np.abs(f.data[0] - exp1)), "ratio to CN increment": float(np.linalg.norm(f.data[0] - Q0) / (np.linalg.norm(exp1 - Q0) + 1e-300))}, cls=cls)
         ctx.close("gear-time", abs(f.time - s.field.time - dt) / dt, 1e-12, "step/gear/first-step-time", {"advance/dt": (f.time - s.field.time) / dt}, cls=cls)
         # BDF2 recurrence, judged on increments actually taken by the real code (independent of the start)
@@ -97,7 +112,10 @@ def linear_step(ctx, rng, idx):
             new = f.data[0].copy()
             expd = np.linalg.solve(1.5 * np.eye(n) - dt * A, dt * (A @ prev + b) + 0.5 * dprev)
             sc = (np.max(np.abs(prev)) + np.max(np.abs(dprev)) + 1e-300) * max(1.0, cfl)
-            ctx.close("gear-bdf2", np.max(np.abs((new - prev) - expd)) / sc, tol, "step/gear/not-bdf2-recurrence", {"k": k, "cfl": cfl}, cls=cls)
+            kk_ = "step/gear/not-bdf2-recurrence"
+            if np.max(np.abs((new - prev) - expd)) / sc > tol:
+                kk_ = _key(kk_, new - prev, None, (A @ prev + b) + 0.5 * dprev / dt)
+            ctx.close("gear-bdf2", np.max(np.abs((new - prev) - expd)) / sc, tol, kk_, {"k": k, "cfl": cfl}, cls=cls)
             dprev, prev = new - prev, new
     ctx.nontrivial("lin", iname, cfl, localdt, s.desc())
 
@@ -238,6 +256,17 @@ def large_linear_step(ctx, rng, idx):
     n = int(rng.integers(150, 701)) if r < 0.4 else int(rng.integers(1001, 1401)) if (ctx.tier == "quick" or r < 0.85) else int(rng.integers(2049, 2201))
     s = gen.scenario1d(rng, mname="convection", recons=["extrapol1", "extrapol2", "extrapol3", "fromm", "quick"], bc="per", meshkinds=["uni", "refined"], ncell=n, dkind="smooth", warm=False)
     cfl = float(rng.choice([0.5, 2.0, 5.0, 10.0, 50.0]))
+    if idx < 4:
+        # fixed witnesses of D19 (LU element growth): left-running wave, upwind-biased kappa scheme, uniform mesh, CFL 10 --
+        # 400 unknowns (growth 1e17) and 2140 unknowns (growth 1e170: the euclidean norms of a residual test overflow)
+        import flowdyn.modelphy.convection as conv_
+        import flowdyn.mesh as fmesh_
+        import flowdyn.xnum as xnum_
+        n = [400, 2140, 400, 2140][idx]; cfl = 10.0
+        s.mesh = fmesh_.unimesh(ncell=n, length=1.0); s.model = conv_.model(-1.3); s.mdesc = {"kind": "uni", "ncell": n, "length": 1.0}
+        s.rname = ["quick", "quick", "extrapol3", "fromm"][idx]; s.num = xnum_.extrapolk({"quick": 0.5, "fromm": 0.0}[s.rname]) if s.rname != "extrapol3" else xnum_.extrapol3()
+        s.disc = md.fvm(s.model, s.mesh, s.num); s.mparams = {"convcoef": -1.3}
+        s.field = ffield.fdata(s.model, s.mesh, [np.sin(2 * np.pi * s.mesh.centers())])
     with probes.quiet():
         A, b = operator(s.disc, s.model, s.mesh)
         dt = float(np.min(s.disc.calc_timestep(s.field, cfl)))
@@ -382,7 +411,7 @@ def stretched_mesh_order(ctx, rng, idx):
     need = 0.75 if iname == "implicit" else 1.6
     v = mesh.vol()
     ctx.describe(integrator=iname, recon=rname, faces=np.asarray(mesh.xf), cell_size_ratio=float(np.max(v) / np.min(v)), T=T, errors=errs, orders=p, errors_with_exact_operator=exact, orders_with_exact_operator=pe)
-    ctx.true("stretched-order", p[-1] >= need or errs[-1] < 1e-9, "order/finite-difference-jacobian-noise-on-strongly-stretched-mesh/%s" % iname,
+    ctx.true("stretched-order", p[-1] >= need or errs[-1] < 1e-9, "stretched-mesh-fd-jacobian-noise/order/%s" % iname,
              {"orders": p, "errors": errs, "need": need, "orders of the same recurrence with the exact operator": pe, "cell size ratio": float(np.max(v) / np.min(v))}, cls="order:" + iname)
     ctx.true("stretched-order-formula", pe[-1] >= need or exact[-1] < 1e-9, "order/%s/recurrence-with-exact-operator-below-design" % iname, {"orders": pe}, cls="order:" + iname)
     ctx.nontrivial("stretched", iname, idx, np.asarray(mesh.xf))
@@ -488,6 +517,7 @@ def jacobian(ctx, rng, idx):
             out[q::neq] = r[q]
         return out
     worst = 0.0
+    _probes_used = []
     for _ in range(3):
         v = np.zeros(n * neq)
         for q in range(neq):
@@ -499,11 +529,29 @@ def jacobian(ctx, rng, idx):
             ctx.skip("jacobian:kink-near-state")
             continue
         Jv = J @ v
+        _probes_used.append((v, ref))
         # error per equation, normalised by the size of that equation's derivative
         for q in range(neq):
             sc = np.max(np.abs(ref[q::neq])) + np.max(np.abs(J[q::neq, :])) * 1e-3 * min(qsc) + 1e-300
             worst = max(worst, np.max(np.abs(Jv[q::neq] - ref[q::neq])) / sc)
-    ctx.close("jacobian", worst, 2e-4, "jacobian/not-derivative-of-rhs", {"model": s.mname, "recon": s.rname}, cls="jacobian")
+    jkey = "jacobian/not-derivative-of-rhs"
+    vol_ = s.mesh.vol()
+    if worst > 2e-4 and float(np.max(vol_) / np.min(vol_)) > 1e3:
+        # known finding D20 (round-off of the one-sided difference, O(sqrt(eps)/dx_min)): confirmed when the REAL calc_jacobian with a
+        # 10 times SMALLER step (its own epsdiff argument) is at least 3 times further from the derivative -- round-off grows like
+        # 1/step, truncation shrinks, a wrong formula would not care
+        try:
+            with probes.quiet():
+                J30 = np.array(gen.integ(iname)(s.mesh, s.disc).calc_jacobian(s.field.copy(), epsdiff=0.1), float)
+            # (absolute deviations over all unknowns: the per-equation normalisation above can be dominated by an equation whose own
+            # derivative is small and merely receives the noise of the thin cells' rows)
+            w30 = max(float(np.max(np.abs(J30 @ v_ - ref_))) for v_, ref_ in _probes_used)
+            wabs = max(float(np.max(np.abs(J @ v_ - ref_))) for v_, ref_ in _probes_used)
+            if w30 > 3.0 * wabs:
+                jkey = "stretched-mesh-fd-jacobian-noise/" + jkey
+        except Exception:   # noqa
+            pass
+    ctx.close("jacobian", worst, 2e-4, jkey, {"model": s.mname, "recon": s.rname, "cell size ratio": float(np.max(vol_) / np.min(vol_))}, cls="jacobian")
     if s.bckind == "per":
         vol = s.mesh.vol()
         for q in range(neq):
